@@ -228,11 +228,11 @@ PROPS = {
               "matrix enumerated by MC_Outcome: 4 generation functions x 52 hostile-but-constructible value classes (non-ASCII / NUL / empty / 64 KiB text in String-typed IA5 positions; OID lists [], [1], [3,1], [1,40], [1,39,max], [2,2^64-1], [2,2^64-81] (first unencodable), [2,2^64-82], [2,2^63], later arcs of 2^64-1, 1000 arcs in each of the four OID-carrying positions (product enumerated in TLA+); years -9999, -1, 0, 9999 and offsets that push the UTC year to -1 / 10000; empty and 1 MiB serials / CRL numbers / custom contents; malformed CSR attribute values) plus the 5 documented panics; 19 parser entry points x 6 byte-string classes over valid seeds (rcgen and OpenSSL certificates, CSRs, PKCS#8/SEC1/PKCS#1 keys, SPKIs, PEM texts): substitution of 8 values / truncation / insertion-deletion at every position (strided in quick), TLV-aware mutations with length repair reaching into extension values (12 kinds, including contents with every continuation bit set, non-minimal and over-long sub-identifiers), random bytes; Display/Debug of errors that echo caller input for invalid strings of every length 0..299 ending in 2/3/4-octet characters; coverage predicates require every cell; C10.no_panic is also evaluated on every event of the certificate, time, CSR, CRL, CSR-parsing, key and string pipelines; distinct by (function, class) cell and event arguments",
               ops=None, exhaustive=False),
     "C11": _p("model_checking", ["keys"], ["C11."],
-              "key type (Ed25519, P-256, P-384, P-521, RSA-2048; 3072/4096 in thorough) x origin/format (OpenSSL PKCS#8, SEC1, PKCS#1; rcgen-generated PKCS#8 v1/v2) x 9 loading entry points x requested algorithm (none + every algorithm of the build, all misfits) x back end (ring, aws-lc-rs); every successful load signs, re-exports and re-loads through every one of the 9 entry points (told the key's own algorithm where one is asked for); Ed25519 keys whose public key begins with 0x00 / 0xff / 0x30 / 0x04 or ends with 0x00; plus the algorithm table event; distinct by (key type, format, entry, requested algorithm, back end)",
+              "key type (Ed25519, P-256, P-384, P-521, RSA-2048, RSA-3072; 4096 in thorough) x origin/format (OpenSSL PKCS#8, SEC1, PKCS#1; rcgen-generated PKCS#8 v1/v2) x 9 loading entry points x requested algorithm (none + every algorithm of the build, all misfits) x back end (ring, aws-lc-rs); every successful load signs, re-exports and re-loads through every one of the 9 entry points (told the key's own algorithm where one is asked for); Ed25519 keys whose public key begins with 0x00 / 0xff / 0x30 / 0x04 or ends with 0x00; plus the algorithm table event; distinct by (key type, format, entry, requested algorithm, back end)",
               ops=["KeyLoad", "AlgTable"], exhaustive=True),
-    "C14": _p("model_checking", ["pem"], ["C14."],
-              "certificate / CSR / CRL for common-name lengths 0..149 (every residue of the DER length modulo 48 is required by a coverage predicate evaluated by TLC) x algorithms (Ed25519 over the full span, P-256/P-384/RSA-2048 sampled, multi-kilobyte RSA certificates with 40 SANs), private and public key PEM per algorithm, the private-key PEM of every key origin (OpenSSL PKCS#8 v1, SEC1, PKCS#1, rcgen-generated) offered to each of rcgen's three PEM loaders, remote keys (no DER accessor, hence no text); distinct by (kind, algorithm, DER length)",
-              ops=["Pem"], exhaustive=False),
+    "C14": _p("model_checking", ["pem", "cli"], ["C14."],
+              "certificate / CSR / CRL for common-name lengths 0..149 (every residue of the DER length modulo 48 is required by a coverage predicate evaluated by TLC) x algorithms (Ed25519 over the full span, P-256/P-384/RSA-2048 sampled, multi-kilobyte RSA certificates with 40 SANs), private and public key PEM per algorithm, the private-key PEM of every key origin (OpenSSL PKCS#8 v1, SEC1, PKCS#1, rcgen-generated) offered to each of rcgen's three PEM loaders, remote keys (no DER accessor, hence no text); the four files of every run of the command line tool over MC_Cli.Cases (strict RFC 7468 shape, also when written over longer files of an earlier run); distinct by (kind, algorithm, DER length)",
+              ops=["Pem", "CliRun"], exhaustive=False),
     "C15": _p("model_checking", ["purity", "sessions"], ["C15."],
               "MC_Purity: every interleaving of 3 threads x 2 generation calls over 19 templates (exhaustive, history hidden by a VIEW); sessions = TLC -simulate behaviours of the same module (4 threads x 6 calls interleaved with interfering calls: DN edits, key loads, failing parses, CSR parsing, the same key under other key-identifier methods, unrelated generations, CA import) replayed call by call; 19 generation templates (certificate self-signed / issued, CSR, CRL; rich names, 6 EKUs, name constraints, custom extensions; issuers that differ from each other in exactly one component: same key under two names, same name under two keys, one name under two RSA keys of one size; empty key identifier; auto-detected RSA-3072) on shared keys and issuers, each output's signature verified under the key the call was given; a hot phase of 8 threads x 2 400 generations alternating between those issuers; threads sharing Arc'd key and issuer; fresh processes (different hash-map seeds) sharing the same key files; distinct by (template, back end, process, thread, phase)",
               ops=["Gen"], exhaustive=False),
